@@ -1132,14 +1132,22 @@ theorem unused_input_iff (p : Pipeline) (x : Bytes) :
     x ∈ unusedInputs p ↔ x ∈ p.ins.map Prod.fst ∧ x ∉ usedInputs p := by
   simp [unusedInputs, List.mem_filter]
 
-/-- a reference `self.x…` anywhere inside a written binding of a call uses `x` -/
+/-- a reference `self.x…` anywhere inside a written binding of a call uses `x`
+(with or without a wildcard after the written bindings) -/
 theorem binding_uses_input (p : Pipeline) (c : CallStm) (k : Bytes) (b : Bind) (x : Bytes)
-    (hc : c ∈ p.calls) (hw : c.wild = none) (hb : (k, b) ∈ c.binds) (hx : x ∈ b.selfIds) :
+    (hc : c ∈ p.calls) (hb : (k, b) ∈ c.binds) (hx : x ∈ b.selfIds) :
     x ∈ usedInputs p := by
   simp only [usedInputs, List.mem_append, List.mem_flatMap]
   refine Or.inl ⟨c, hc, Or.inl ?_⟩
-  simp only [usedByBinds, hw, allBinds, List.mem_append, List.mem_flatMap]
-  exact Or.inl ⟨(k, b), hb, hx⟩
+  simp only [usedByBinds, List.mem_append, List.mem_flatMap]
+  refine Or.inl ⟨(k, b), ?_, hx⟩
+  cases hw : c.wild with
+  | none => simpa [allBinds] using hb
+  | some w =>
+    simp only [allBinds]
+    cases expandWild { self := p.ins, calls := [] } c.callee.params w with
+    | none => simpa using hb
+    | some ex => simpa using Or.inl hb
 
 example :
     let st : Callee := { name := cP, isStage := true, params := [(ka, .base .int)], outs := .nil }
